@@ -6,7 +6,7 @@
   B1            the same run prints every input sequence; each is executed on the real code as the identity
                 and as scaled / offset exact copies
   B2            vh dt-random     - seeded sets (uniform, clustered, thin bands, flat arcs, diagonals) of up to
-                40 (quick) / 90 (thorough) points, identity or scaled by 2^k (|k| <= 40) / offset by j*2^m
+                32 (quick) / 90 (thorough) points, identity or scaled by 2^k (|k| <= 40) / offset by j*2^m
   executor      vh dt-exec       - real triangulation.BowyerWatson; mesh mapped back to the lattice
   judge         TraceDelaunay.tla (Delaunay!Judge: exact integer Orient / InCircle determinants)
 """
@@ -210,7 +210,7 @@ def run(ctx):
             cases.append({"tag": "bfs-" + name, "pts": pts, "k": k, "j": j, "m": m})
     nb1 = len(cases)
     d = ctx.scratch("rnd")
-    plans = [(1500, 40, ctx.seed)] if quick else [(6000, 40, ctx.seed * 100), (600, 90, ctx.seed * 100 + 1)]
+    plans = [(900, 32, ctx.seed)] if quick else [(6000, 40, ctx.seed * 100), (600, 90, ctx.seed * 100 + 1)]
     for n, maxn, seed in plans:
         p = os.path.join(d, "cases-%d.ndjson" % seed)
         core.run_vh(vh, ["dt-random", "-out", p, "-seed", str(seed), "-n", str(n), "-maxn", str(maxn)])
@@ -258,7 +258,7 @@ def run(ctx):
     ctx.rule = ("cases = every general-position sequence of 3..%d points of the 4x4 lattice (TLC-enumerated, insertion order "
                 "matters) as identity and scaled/offset copies + seeded sets of 3..%d points; distinct by (points, "
                 "transform); non-trivial if the result has >= 2 triangles; empty results are inside the statement and "
-                "only counted" % (4 if quick else 5, 40 if quick else 90))
+                "only counted" % (4 if quick else 5, 32 if quick else 90))
     ctx.sample(cases[0])
     ctx.sample({"tag": cases[-1].get("tag"), "n": len(cases[-1]["pts"]), "k": cases[-1]["k"], "j": cases[-1]["j"], "m": cases[-1]["m"]})
     ctx.assumptions += [
